@@ -12,6 +12,7 @@ import (
 
 	zz "github.com/ogen-go/ogen/internal/zzverif"
 	"github.com/ogen-go/ogen/middleware"
+	"github.com/ogen-go/ogen/openapi"
 )
 
 type zzRec struct {
@@ -143,7 +144,9 @@ func HGetM(lv, nw, lw int) {
 	p := GetMParams{V: zz.String(lv), W: symStrings(nw, lw)}
 	err := c.GetM(context.Background(), p)
 	core := lv > 0 && nw > 0 && lw > 0
-	coreV := true
+	// v is followed by the static text ".x" inside its segment: a value containing '.' cannot be routed
+	// unambiguously (C05's completeness clause excludes the characters that may follow the parameter)
+	coreV := noByte(p.V, '.')
 	if core {
 		for _, it := range p.W {
 			coreV = zz.And(coreV, noByte(it, '.'))
@@ -152,10 +155,205 @@ func HGetM(lv, nw, lw int) {
 	if err != nil {
 		zz.Cover("getm-client-error")
 		zz.Assert(zz.Not(zz.And(core, coreV)), "core-domain path values are always delivered (GetM)")
-		zz.Assert(h.calls == 0 || true, "-")
 		return
 	}
 	zz.Cover("getm-delivered")
 	zz.Assert(h.calls == 1, "a successful call ran the handler exactly once (GetM)")
 	zz.Assert(zz.And(zz.EqString(h.m.V, p.V), eqStrings(h.m.W, p.W)), "the handler receives exactly the path values the caller supplied (GetM)")
+}
+
+func symOptString(l int) OptString {
+	if l < 0 {
+		return OptString{}
+	}
+	return NewOptString(zz.String(l))
+}
+
+func mwString(mw *zzMW, name, in string) (string, bool) {
+	v, ok := mw.params[middleware.ParameterKey{Name: name, In: openapi.ParameterLocation(in)}]
+	if !ok {
+		return "", false
+	}
+	switch x := v.(type) {
+	case string:
+		return x, true
+	case OptString:
+		return x.Value, x.Set
+	}
+	return "", false
+}
+
+// HGetP: every parameter location of one operation; which parts are symbolic is selected by part:
+// 0 path a + n, 1 query q/qd (default), 2 query arrays qa (explode) / qn (no explode), 3 header + cookie + bool,
+// 4 response variants (200 with header, 4XX pattern, default)
+func HGetP(part, l1, l2 int) {
+	h, mw := &zzHandler{}, &zzMW{}
+	c := zzPair(h, mw)
+	p := GetPParams{A: "x", N: 7, B: true}
+	h.resP = &OutHeaders{Response: Out{V: "r"}}
+	core := true
+	switch part {
+	case 0:
+		p.A = zz.String(l1)
+		p.N = zz.Int32()
+		zz.Assume(zz.And(p.N > -1000, p.N < 1000))
+		core = l1 > 0
+	case 1:
+		p.Q = symOptString(l1)
+		p.Qd = symOptString(l2)
+	case 2:
+		p.Qa = symStrings(l1, 1)
+		p.Qn = symStrings(l2, 1)
+		for _, it := range p.Qn {
+			core = zz.And(core, it[0] != ',')
+		}
+	case 3:
+		p.XH = symOptString(l1)
+		p.Ck = symOptString(l2)
+		p.B = zz.Bool()
+		if p.XH.Set { // header values on the wire: visible ASCII (no CR/LF/NUL ...): the in-process loop-back has no transport to refuse them
+			for i := 0; i < len(p.XH.Value); i++ {
+				zz.Assume(zz.And(p.XH.Value[i] > 0x20, p.XH.Value[i] < 0x7f))
+			}
+		}
+	case 4:
+		switch l1 {
+		case 0:
+			o := &OutHeaders{Response: Out{V: zz.String(1)}}
+			if l2 > 0 {
+				o.XR = NewOptString(zz.String(1))
+				zz.Assume(zz.And(o.XR.Value[0] > 0x20, o.XR.Value[0] < 0x7f))
+				o.Response.K = NewOptInt(int(zz.Uint8()))
+			}
+			h.resP = o
+		case 1:
+			code := zz.IntRange(400, 403) + 96*zz.IntRange(0, 1) // 400..403 and 496..499
+			h.resP = &ErrStatusCode{StatusCode: code, Response: Err{M: zz.String(1)}}
+		default:
+			code := []int{500, 302, 599, 201}[l2%4]
+			h.resP = &Err2StatusCode{StatusCode: code, Response: Err2{E: zz.String(1)}}
+		}
+	}
+	res, err := c.GetP(context.Background(), p)
+	if err != nil {
+		zz.Cover("getp-client-error")
+		zz.Assert(zz.Not(core), "core-domain parameter values are always delivered (GetP)")
+		return
+	}
+	zz.Cover("getp-delivered")
+	zz.Assert(h.calls == 1 && mw.calls == 1, "a successful call ran the middleware and the handler exactly once (GetP)")
+	g := h.p
+	zz.Assert(zz.And(zz.EqString(g.A, p.A), g.N == p.N), "the handler receives the path values the caller supplied")
+	zz.Assert(eqOptString(g.Q, p.Q), "an optional query parameter arrives as supplied (absent stays absent)")
+	wantQd := p.Qd
+	if !p.Qd.Set {
+		wantQd = NewOptString("dflt")
+	}
+	zz.Assert(eqOptString(g.Qd, wantQd), "an absent parameter with a schema default arrives as that default")
+	if len(p.Qa) > 0 {
+		zz.Assert(eqStrings(g.Qa, p.Qa), "an exploded query array arrives item by item")
+	} else {
+		zz.Assert(len(g.Qa) == 0, "an empty/absent exploded query array arrives empty")
+	}
+	zz.Known("C06/query-form-noexplode-single-empty-item", false)
+	if len(p.Qn) > 0 {
+		zz.Assert(eqStrings(g.Qn, p.Qn), "a non-exploded query array arrives item by item")
+	} else {
+		zz.Assert(len(g.Qn) == 0, "an empty/absent non-exploded query array arrives empty")
+	}
+	zz.Assert(zz.And(eqOptString(g.XH, p.XH), eqOptString(g.Ck, p.Ck)), "header and cookie parameters arrive as supplied")
+	zz.Assert(g.B == p.B, "a boolean query parameter arrives as supplied")
+	// middleware sees the same decoded values
+	ma, okA := mwString(mw, "a", "path")
+	mq, okQ := mwString(mw, "q", "query")
+	zz.Assert(zz.And(okA, zz.EqString(ma, g.A)), "the middleware hook sees the path parameter the handler receives")
+	zz.Assert(okQ == g.Q.Set && (!okQ || mq == g.Q.Value), "the middleware hook sees the optional query parameter the handler receives")
+	// response
+	switch want := h.resP.(type) {
+	case *OutHeaders:
+		got, ok := res.(*OutHeaders)
+		zz.Assert(ok, "the caller receives the 200 variant the handler returned")
+		if ok {
+			zz.Assert(zz.And(zz.EqString(got.Response.V, want.Response.V), eqOptString(got.XR, want.XR)), "the caller receives the body and response header the handler returned")
+			zz.Assert(got.Response.K == want.Response.K, "optional response members arrive as returned")
+		}
+	case *ErrStatusCode:
+		got, ok := res.(*ErrStatusCode)
+		zz.Assert(ok, "the caller receives the 4XX-pattern variant the handler returned")
+		if ok {
+			zz.Assert(got.StatusCode == want.StatusCode && got.Response.M == want.Response.M, "the caller receives the status code and body of the pattern response")
+		}
+	case *Err2StatusCode:
+		got, ok := res.(*Err2StatusCode)
+		zz.Assert(ok, "the caller receives the default variant the handler returned")
+		if ok {
+			zz.Assert(got.StatusCode == want.StatusCode && got.Response.E == want.Response.E, "the caller receives the status code and body of the default response")
+		}
+	}
+}
+
+// HPostB: JSON request body with a defaulted member and the echoed response body.
+func HPostB(ls, nl, variant int) {
+	h, mw := &zzHandler{}, &zzMW{}
+	c := zzPair(h, mw)
+	in := &In{A: int(zz.Uint8())} // small non-negative range keeps jx's digit-chunk arithmetic cheap; variant 3 uses a negative constant
+	if variant == 3 {
+		in.A = -40
+	}
+	if ls >= 0 {
+		in.S = NewOptString(zz.String(ls))
+		for i := 0; i < ls; i++ { // valid UTF-8 (ASCII) text: JSON strings carry Unicode text, not arbitrary bytes
+			zz.Assume(in.S.Value[i] < 0x80)
+		}
+	}
+	if nl >= 0 {
+		in.L = []int{}
+		for i := 0; i < nl; i++ {
+			in.L = append(in.L, int(zz.Uint8())-7*i)
+		}
+	}
+	if variant == 1 {
+		in.D = NewOptString("own")
+	}
+	if variant == 2 {
+		h.resB = &PostBCreated{}
+	} else {
+		h.resB = &In{A: int(zz.Uint8()), D: NewOptString("z")}
+	}
+	res, err := c.PostB(context.Background(), in)
+	zz.Assert(err == nil, "a valid JSON body is always delivered and answered (PostB)")
+	if err != nil {
+		return
+	}
+	zz.Cover("postb-delivered")
+	zz.Assert(h.calls == 1 && h.in != nil, "the handler ran once with a body")
+	g := h.in
+	zz.Assert(g.A == in.A, "the required integer member arrives unchanged")
+	zz.Assert(eqOptString(g.S, in.S), "an optional string member arrives unchanged (absent stays absent)")
+	wantD := in.D
+	if !in.D.Set {
+		wantD = NewOptString("dd")
+	}
+	zz.Assert(eqOptString(g.D, wantD), "an absent body member with a schema default arrives as that default")
+	same := len(g.L) == len(in.L) && (g.L == nil) == (in.L == nil)
+	for i := 0; same && i < len(in.L); i++ {
+		same = g.L[i] == in.L[i]
+	}
+	zz.Assert(same, "an optional array member arrives unchanged (absent, empty and non-empty are distinguished)")
+	if mb, ok := mw.body.(*In); ok {
+		zz.Assert(mb == h.in, "the middleware hook sees the decoded body the handler receives")
+	} else {
+		zz.Fail("the middleware hook did not receive the decoded request body")
+	}
+	switch want := h.resB.(type) {
+	case *PostBCreated:
+		_, ok := res.(*PostBCreated)
+		zz.Assert(ok, "the caller receives the 201 no-content variant the handler returned")
+	case *In:
+		got, ok := res.(*In)
+		zz.Assert(ok, "the caller receives the 200 variant the handler returned (PostB)")
+		if ok {
+			zz.Assert(got.A == want.A && eqOptString(got.D, want.D) && !got.S.Set, "the caller receives the response body the handler returned")
+		}
+	}
 }
